@@ -132,6 +132,13 @@ def fixed_scenarios():
             put(A1), inf(A1), flt(A1, ["node1"]), bnd(A1), phase(A1, 2), inf(A1), {"op": "event", "n": 0}, dele(A1), put(B1), inf(B1),
             flt(B1, ["node2"]), bnd(B1, "node2"), inf(B1), phase(B1, 1), {"op": "event", "n": 0}, {"op": "event", "n": 0},
             {"op": "resync", "ip": "@a0"}]}))
+    # a provider call fails cleanly during Bind and the scheduler retries: on the same node, on another node
+    for k, ranges in ((0, []), (0, [["10.100.0.3"]]), (1, [["10.100.0.3"], ["10.100.0.6~10.100.0.7"]])):
+        R = mkpod("web-0", "uR", policy=1, ranges=ranges)
+        hs.append(("assign-fails-then-retry-%d-%d" % (k, len(ranges)), {"provider": True, "nodes": NODES, "conf": conf_text([POOL_A]), "ops": base + [
+            put(R), inf(R), flt(R, ["node1", "node2"]), dict(bnd(R, "node1"), fcloud=k), bnd(R, "node1"), inf(R), phase(R, 1), inf(R),
+            {"op": "resync", "ip": "@a0"}, dele(R), inf(R), dict({"op": "event", "n": 0}, fcloud=0), {"op": "event", "n": 0},
+            {"op": "resync", "ip": "@a0"}]}))
     # F2: stale informer while B is bound
     A2, B2 = mkpod("web-0", "uA"), mkpod("web-0", "uB")
     hs.append(("F2-stale-lister-bind", {"provider": False, "nodes": NODES, "conf": conf_text([POOL_A]), "ops": base + [
@@ -628,7 +635,9 @@ def policy_scenarios(rng, ctx, n):
                     dele(k1), inf(k1), {"op": "event", "n": 0}, {"op": "event", "n": 0}, {"op": "event", "n": 0},
                     {"op": "dp_set", "ns": "ns1", "name": "api", "replicas": None}]
             pods.append(k1)
-        quiesce = [inf(p) for p in pods] + [{"op": "event", "n": 0}] * (2 * len(pods)) + [{"op": "resync", "ip": "@a%d" % j} for j in range(8)]
+        # sometimes a new process starts between the events and the pass: the tables are rebuilt from the store
+        mid = [{"op": "restart"}] if rng.random() < 0.5 else []
+        quiesce = [inf(p) for p in pods] + [{"op": "event", "n": 0}] * (2 * len(pods)) + mid + [{"op": "resync", "ip": "@a%d" % j} for j in range(8)]
         hs.append(("policy:%d" % i, {"provider": rng.random() < 0.25, "nodes": NODES, "conf": conf, "ops": ops + quiesce, "_quiesce_from": len(ops)}))
         ctx.dist("scenario:policy")
     return hs
@@ -662,7 +671,10 @@ def mon_c03(h, o, nwf, keys):
                 sp = bykey.get(e[1])
                 if sp is None:
                     continue
-                pol = eff_policy(byuid[ev_uid]) if (k == "event" and ev_uid in byuid) else e[2]
+                # the policy in force is the one the pod was created with (the scenario and random generators keep it fixed per
+                # key); the STORED policy is what the code consults on resync - a release licensed only by a corrupted stored
+                # policy is a violation
+                pol = eff_policy(byuid[ev_uid]) if (k == "event" and ev_uid in byuid) else eff_policy(sp)
                 if k == "event" and (ev_uid not in byuid or pod_key(byuid[ev_uid]) != e[1]):
                     continue
                 if k in ("resync", "resync_item") and ipamgen.s2ip(st.get("ip", "0.0.0.0")) != e[0] and not any(
@@ -698,7 +710,7 @@ def mon_c03(h, o, nwf, keys):
             if sp is not None:
                 if (sp["Ns"], sp["Name"]) in live:
                     continue
-                pol = e[2]
+                pol = eff_policy(sp)
                 must_free = pol == 0 or not supports(sp, pol) or \
                     (pol == 1 and sp["Kind"] == "sts" and (sts.get((sp["Ns"], sp["App"])) is None or
                                                           not sp["Name"].split("-")[-1].isdigit() or
